@@ -2,8 +2,8 @@
    bsz bytes, pending error, fill / ReadByte / Read / ReadSlice as in Go's bufio), io.ReadFull
    (io.ReadAtLeast), io.CopyN into a bytes.Buffer (LimitedReader + Buffer.ReadFrom, the size of each
    request left to an arbitrary function) and og-rek's own readLine loop over bufio.ErrBufferFull,
-   reading from a source that delivers the input in arbitrary chunks, the last one possibly together
-   with io.EOF.  Proofs/BufioFacts.v shows that the outcome equals the L0 run on the concatenation.
+   reading from a source that delivers the input in arbitrary chunks - some of them possibly empty -
+   the last one possibly together with io.EOF.  Proofs/BufioFacts.v shows that the outcome equals the L0 run on the concatenation.
    Definitions only. *)
 From Coq Require Import Ascii String.
 From Coq Require Import List ZArith NArith Bool.
@@ -27,9 +27,27 @@ Definition absl (st : bst) : bytes := b_buf st ++ concat (b_src st).
 
 Definition is_nil {A} (l : list A) : bool := match l with [] => true | _ => false end.
 
-(* rd.Read(p), len(p) = room >= 1: (data, err = io.EOF?, remaining source) *)
-Definition src_read (room : nat) (src : list bytes) (eofw : bool) : bytes * bool * list bytes :=
+(* Read results of length 0 without an error: every consumer in og-rek's reading stack answers
+   (0, nil) by reading again - bufio.fill (giving up with io.ErrNoProgress after 100 in a row, which
+   is not modelled: sources are taken to have shorter runs, no_long_runs), io.ReadAtLeast and
+   bytes.Buffer.ReadFrom (without a limit) - so an empty result is folded into the Read that follows *)
+Fixpoint skip_empty (src : list bytes) : list bytes :=
   match src with
+  | [] :: t => skip_empty t
+  | _ => src
+  end.
+
+Fixpoint run_len (src : list bytes) : nat :=          (* leading empty results *)
+  match src with [] :: t => S (run_len t) | _ => O end.
+Fixpoint no_long_runs (src : list bytes) : Prop :=
+  match src with
+  | [] => True
+  | _ :: t => (run_len src < 100)%nat /\ no_long_runs t
+  end.
+
+(* rd.Read(p), len(p) = room >= 1: (data, err = io.EOF?, remaining source) *)
+Definition src_read (room : nat) (src0 : list bytes) (eofw : bool) : bytes * bool * list bytes :=
+  match skip_empty src0 with
   | [] => ([], true, [])
   | d :: t =>
       if Nat.leb (length d) room then (d, is_nil t && eofw, t)
@@ -39,7 +57,7 @@ Definition src_read (room : nat) (src : list bytes) (eofw : bool) : bytes * bool
 Section Bufio.
   Variable bsz : nat.                       (* len(b.buf): 4096 for bufio.NewReader *)
 
-  (* b.fill(), called with len(buf) < bsz; one Read suffices because no Read result is empty *)
+  (* b.fill(), called with len(buf) < bsz: reads until something arrives (src_read skips empty results) *)
   Definition fill (st : bst) : bst :=
     let '(d, e, src') := src_read (bsz - length (b_buf st)) (b_src st) (b_eofw st) in
     {| b_buf := b_buf st ++ d; b_err := e; b_src := src'; b_eofw := b_eofw st |}.
